@@ -125,7 +125,7 @@ fn content_formats(rep: &mut Report, r: &mut Rng) {
         // 1: from empty
         rep.eval();
         let res = guard(|| {
-            let mut p = Packet::new();
+            let mut p = crate::ctx::context_packet();
             let before = p.get_content_format();
             p.set_content_format(*cf);
             (before, p.get_content_format(), cf_raw(&p), wire_has_single_cf(&p, *id))
@@ -142,7 +142,7 @@ fn content_formats(rep: &mut Report, r: &mut Rng) {
             continue;
         }
         let res = guard(|| {
-            let mut p = Packet::new();
+            let mut p = crate::ctx::context_packet();
             p.set_content_format(prev);
             p.set_content_format(*cf);
             (p.get_content_format(), cf_raw(&p), wire_has_single_cf(&p, *id))
@@ -154,7 +154,7 @@ fn content_formats(rep: &mut Report, r: &mut Rng) {
         // 3: set after raw adds (one, or several values already there)
         rep.eval();
         let res = guard(|| {
-            let mut p = Packet::new();
+            let mut p = crate::ctx::context_packet();
             p.add_option(CoapOption::ContentFormat, min_be(prev_id as u64));
             if *id % 2 == 0 {
                 p.add_option(CoapOption::ContentFormat, vec![42]);
@@ -172,7 +172,7 @@ fn content_formats(rep: &mut Report, r: &mut Rng) {
     for (cf, id) in all.iter() {
         rep.eval();
         let res = guard(|| {
-            let mut p = Packet::new();
+            let mut p = crate::ctx::context_packet();
             let mut padded = vec![0u8];
             padded.extend_from_slice(&min_be(*id as u64));
             padded.truncate(2.max(padded.len().min(2)));
@@ -192,7 +192,7 @@ fn content_formats(rep: &mut Report, r: &mut Rng) {
         for (cf, id) in all.iter() {
             rep.eval();
             let res = guard(|| {
-                let mut p = Packet::new();
+                let mut p = crate::ctx::context_packet();
                 p.set_content_format(*prev);
                 p.set_content_format(*cf);
                 (p.get_content_format(), cf_raw(&p))
@@ -207,7 +207,7 @@ fn content_formats(rep: &mut Report, r: &mut Rng) {
     for id in [1usize, 2, 15, 20, 24, 39, 43, 64, 99, 100, 255, 257, 433, 9999, 10003, 65535] {
         rep.eval();
         debug_assert!(!CONTENT_FORMATS.iter().any(|x| x.0 == id));
-        let mut p = Packet::new();
+        let mut p = crate::ctx::context_packet();
         p.add_option(CoapOption::ContentFormat, min_be(id as u64));
         match guard(|| p.get_content_format()) {
             Ok(None) => rep.count("content_format_unnamed_is_none"),
@@ -216,7 +216,7 @@ fn content_formats(rep: &mut Report, r: &mut Rng) {
     }
     for raw in [vec![0u8, 0, 50], vec![1, 0, 0], vec![0, 0, 0, 0, 0]] {
         rep.eval();
-        let mut p = Packet::new();
+        let mut p = crate::ctx::context_packet();
         p.add_option(CoapOption::ContentFormat, raw.clone());
         match guard(|| p.get_content_format()) {
             Ok(None) => rep.count("content_format_overlong_is_none"),
@@ -226,7 +226,7 @@ fn content_formats(rep: &mut Report, r: &mut Rng) {
     // leading zeros are the same number
     {
         rep.eval();
-        let mut p = Packet::new();
+        let mut p = crate::ctx::context_packet();
         p.add_option(CoapOption::ContentFormat, vec![0, 50]);
         match guard(|| p.get_content_format()) {
             Ok(Some(ContentFormat::ApplicationJSON)) => rep.count("content_format_leading_zero"),
